@@ -335,3 +335,29 @@ Theorem C04_xml_tokenizer_total_default_mode_no_pauses :
                                            (mkmach (init_cfg s0 last false) [] [] 0%N) [])).
 Proof. exact InstTotalDefault.xml_tokenizer_total_default_mode_quiet. Qed.
 Print Assumptions C04_xml_tokenizer_total_default_mode_no_pauses.
+
+(* ------------------------------------------------------------------------------------------------------------
+   The remaining html caveat, site 4 (the assert in Tokenizer::end).  NOT closed by a theorem; what is decided
+   (Inst/InstEndSite.v, reflective facts on the regenerated step table and the pinned entity table):
+   end()'s final run can answer Script / EncodingIndicator only by executing a tag-emitting terminator, and the only
+   characters that run reads are the ones the character-reference flush puts back (the raw buffer: '#', 'x' / 'X',
+   digits, characters of entity keys and their prefixes, alphanumerics of a bogus name) and the look-ahead stash of an
+   eat state (characters matching an eat pattern up to ASCII case).  EXACT CONDITION for site 4: one of those characters
+   is '>' - for an abstract entity table: some key contains '>'.  On the pinned table it is false:
+     - every tag-emitting terminator is guarded, since the arm's last read, by the test "current character is '>'";
+     - every entity key consists of ASCII alphanumerics and ';';
+     - no eat pattern contains a character matching '>' up to case, and '#', 'x', 'X', alphanumerics are not '>'.
+   Missing for C04_html_tokenizer_total_pinned_entities: the invariant proof that the final run reads nothing else
+   (unread input = put-back buffer + stash, temp_buf discipline, reconsume clear when a feed suspends). *)
+From HV Require Gen.GenEntities Inst.InstEndSite.
+Theorem C04_html_site4_condition_is_false_on_the_pinned_tables :
+  (forall s, InstEndSite.gchk [62%N] false (html_step s) = true) /\
+  forallb (fun e => forallb (fun c => is_alnum c || (c =? 59)%N) (fst e)) GenEntities.entities = true /\
+  forallb (fun s => forallb (fun p => forallb (fun c => negb (to_lower c =? to_lower 62)%N) p)
+                            (InstEndSite.eat_pats (html_step s))) html_states = true /\
+  (is_alnum 62 || (62 =? 59)%N || (62 =? 35)%N || (62 =? 120)%N || (62 =? 88)%N) = false.
+Proof.
+  exact (conj InstEndSite.html_emit_guarded (conj InstEndSite.html_entity_keys_alnum_semicolon
+          InstEndSite.html_eat_patterns_no_gt)).
+Qed.
+Print Assumptions C04_html_site4_condition_is_false_on_the_pinned_tables.
